@@ -1017,3 +1017,90 @@ def sexp_to_coq(sx):
         else:
             rules.append("RNil")
     return "[ " + ";\n  ".join(rules) + " ]"
+
+
+class GGenX:
+    """corner shapes that the other generators rarely or never produce (each came up as the shape a seeded change needed):
+    a choice that partitions the whole code space; tokens that begin or end with a line break; rules that re-enter each
+    other through non-left positions in chains; lookahead as a whole alternative that is not the last; unary chains of
+    rules spanning the same text with later siblings."""
+    def __init__(self, rng):
+        self.rng = rng
+        self.nact = 0
+
+    def _act(self):
+        self.nact += 1
+        return ("act", self.nact - 1)
+
+    def partition(self):
+        r = self.rng
+        k = r.randint(3, 5)
+        # all parts but the last stay below 4096 code points: the last becomes the default clause, the others case lists
+        # (Model/Optimize.v does not model case lists of more than 4096 constants)
+        cuts = sorted(set(r.sample([0x20, 0x30, 0x41, 0x61, 0x7B, 0x7F, 0x80, 0xFF, 0x3FF, 0x7FF, 0x800, 0xBFF], k - 1)))
+        bounds = [0] + [c + 1 for c in cuts] + [0x110000]
+        alts = []
+        for i in range(len(bounds) - 1):
+            cls = ("cls", False, False, [("r", bounds[i], bounds[i + 1] - 1)])
+            w = r.random()
+            alts.append(("push", cls) if w < 0.2 else (("seq", [cls, self._act()]) if w < 0.35 else cls))
+        r.shuffle(alts)
+        body = ("alt", alts)
+        top = r.choice([("seq", [("star", ("name", "P")), ("not", ("dot",))]),
+                        ("seq", [("name", "P"), ("q", ("name", "P")), ("not", ("dot",))]),
+                        ("seq", [("plus", ("seq", [("name", "P"), ("q", ("chr", 0x2C))])), ("not", ("dot",))])])
+        return [("S", top), ("P", body)]
+
+    def newlines(self):
+        r = self.rng
+        cls = ("cls", False, False, [("r", 97, 100)])
+        nl = ("chr", 10)
+        item = r.choice([("seq", [nl, ("plus", cls)]), ("seq", [("plus", cls), nl]), ("seq", [nl, nl, cls]), ("push", ("seq", [nl, cls]))])
+        other = r.choice([("plus", cls), ("seq", [cls, ("q", nl)]), ("push", ("plus", cls))])
+        alts = [item, other]
+        r.shuffle(alts)
+        return [("S", ("seq", [("star", ("name", "L")), ("not", ("dot",))])), ("L", ("alt", alts))]
+
+    def chain(self):
+        r = self.rng
+        k = r.randint(4, 7)
+        L = [0x75, 0x63, 0x64, 0x65, 0x66, 0x67, 0x68]
+        names = ["K%d" % i for i in range(k)]
+        rules = [(names[0], ("seq", [("chr", 0x78), ("q", ("name", names[1]))]))]
+        for i in range(1, k - 1):
+            p = r.randrange(i)
+            rules.append((names[i], ("seq", [("name", names[p]), ("chr", L[i % len(L)]), ("q", ("name", names[i + 1]))])))
+        p = r.randrange(k - 1)
+        last = [("seq", [("name", names[p]), ("chr", 0x64)]), ("seq", [("chr", 0x78), ("chr", 0x66)]), ("chr", 0x6B), ("chr", 0x6C)]
+        if r.random() < 0.5:
+            r.shuffle(last)
+        rules.append((names[k - 1], ("alt", last)))
+        return [("S", ("seq", [("name", names[0]), ("not", ("dot",))]))] + rules
+
+    def lookalts(self):
+        r = self.rng
+        cls = ("cls", False, False, [("r", 97, 100)])
+        a, b, c = (("chr", x) for x in r.sample([97, 98, 99, 100], 3))
+        alts = [(r.choice(["and", "not"]), ("seq", [a, b])), ("seq", [a, c]), ("not", c)]
+        if r.random() < 0.5:
+            alts.insert(0, ("not", ("dot",)))
+        return [("S", ("seq", [("plus", ("name", "A")), ("name", "E"), ("not", ("dot",))])),
+                ("A", ("seq", [("alt", alts), cls])),
+                ("E", ("alt", [("not", ("dot",)), ("chr", 10)]))]
+
+    def sameSpan(self):
+        r = self.rng
+        depth = r.randint(2, 4)
+        names = ["U%d" % i for i in range(depth)]
+        rules = []
+        for i in range(depth - 1):
+            rules.append((names[i], ("name", names[i + 1])))
+        rules.append((names[-1], ("push", ("plus", ("cls", False, False, [("r", 48, 57)])))))
+        op = ("chr", r.choice([0x2B, 0x2A]))
+        top = ("seq", [("name", names[0]), ("star", ("seq", [("name", "O"), ("name", names[0])])), ("not", ("dot",))])
+        return [("S", top), ("O", op)] + rules
+
+    def grammar(self):
+        # (partition is not in the rotation: under -switch the generator expands every alternative's first set into one
+        #  node per code point, 17 MB of tree per option set; corpus grammar c10 is the one instance of that shape)
+        return self.rng.choice([self.newlines, self.chain, self.lookalts, self.sameSpan])()
